@@ -550,6 +550,37 @@ def _run_partition(case):
     if nproc >= 2:
         v += _roundtrip(parts, T, conG, coordG, key, name)
         ntr += 1
+        # ---- a part written with Mesh.Save and read back (what every rank does with its piece between a computation and its
+        # post-processing) is the same part: rank, owned / ghost elements, owned nodes, global node numbers, tags
+        import contextlib
+        import io
+        import shutil
+        import tempfile
+
+        from EasyFEA.FEM._mesh import Load_Mesh
+
+        tmp = tempfile.mkdtemp(prefix="c20_")
+        try:
+            for r, part in enumerate(parts):
+                with contextlib.redirect_stdout(io.StringIO()):
+                    path = part.Save(tmp, f"part{r}")
+                    back = Load_Mesh(path)
+                ntr += 2
+                g0, g1 = _groups(part), _groups(back)
+                if sorted(g0) != sorted(g1):
+                    v.append(viol("part_saveload", f"{name} Nproc={nproc} part {r}: groups {sorted(g1)} after Save/Load_Mesh, {sorted(g0)} before", item="groups", **key))
+                    continue
+                for t in g0:
+                    items = ("rank", "elements", "ghostElements", "nodes", "globalNodes")
+                    for nm, a, b in zip(items, _pdata(g0[t]), _pdata(g1[t])):
+                        if not np.array_equal(a, b):
+                            v.append(viol("part_saveload", f"{name} Nproc={nproc} part {r} group {t}: {nm} differs after Save/Load_Mesh "
+                                                           f"({np.asarray(b).ravel()[:6].tolist()} ... vs {np.asarray(a).ravel()[:6].tolist()} ...)", item=nm, elemType=t, **key))
+                            break
+                    if not np.array_equal(np.asarray(g0[t].connect), np.asarray(g1[t].connect)):
+                        v.append(viol("part_saveload", f"{name} Nproc={nproc} part {r} group {t}: connectivity differs after Save/Load_Mesh", item="connect", elemType=t, **key))
+        finally:
+            shutil.rmtree(tmp, ignore_errors=True)
 
     n_shared = int(sum(np.setdiff1d(np.unique(np.concatenate([d["gnodes"] for t, d in rec["groups"].items() if t in mainT] + [np.zeros(0, dtype=int)])),
                                     rec["ownedNodes"]).size for rec in T))
